@@ -11,7 +11,9 @@ TRANSLATORS = []
 DISTINCT_BY_OUTPUT = False
 RULE = ("real HasTraits classes for the four prefix styles (same name, explicit name, 'p_*', '*' with __prefix__) x "
         "DelegatesTo / PrototypedFrom, chains of length <= 3 (incl. DelegatesTo through PrototypedFrom and the "
-        "reverse, renaming at every level, '*' chains with equal / different class prefixes) and malformed shapes "
+        "reverse, renaming at every level, '*' chains with equal / different class prefixes), SUBCLASSES of the "
+        "deferring class (inheriting __prefix__ without restating it, restating it, overriding it, overriding an "
+        "attribute; instances of base and subclasses side by side) and malformed shapes "
         "(missing target, '*' without / with empty __prefix__); seeded random histories of 1-12 operations after a "
         "bottom-up / top-down / partial / absent wiring of the chain: assign through any object and attribute "
         "(valid, rejected, k-th-operation-fails validators), delete, re-point the delegate (object or None), read; "
@@ -20,7 +22,7 @@ RULE = ("real HasTraits classes for the four prefix styles (same name, explicit 
         "object of every forwarder are compared with the Lean model; corpus: the witness histories of the Lean "
         "refutations (F18-F20), the `del`-raises-after-deleting branches, chains of 99 / 100 / 101 levels (the "
         "100-step recursion limit); quick: 2000 histories for each of the 8 style x kind shapes + 500 for each of 8 "
-        "chain shapes + 150 for each of 3 malformed shapes, thorough: 6250 / 3000 / 1000; a case is non-trivial when "
+        "chain shapes and 3 subclass shapes + 150 for each of 3 malformed shapes, thorough: 6250 / 3000 / 1000; a case is non-trivial when "
         "some operation changed a value or the forwarder table, raised, or produced an event; distinct = distinct "
         "case line")
 TRUSTED = [
@@ -63,6 +65,8 @@ def corpus():
         # second case: before fix bead785 the listener re-hook failed, now the `del` succeeds
         mk("star2-deep", "id,id", "sw 2 3;sw 1 2;sw 0 1;st 0 x 5;sw 2 N;dl 0 x;rd 0 x"),
         mk("star2-deep", "id,id", "sw 2 3;sw 1 2;sw 0 1;st 1 a_x 6;st 0 x 5;sw 2 N;dl 0 x;rd 0 x;dl 0 x"),
+        # '*' through a subclass that inherits __prefix__ / restates it / overrides it
+        mk("star-sub", "id,id", "sw 0 5;sw 1 5;sw 2 5;sw 4 5;st 5 q_x 9;st 5 x 2;st 0 x 6;st 0 y 1;st 2 x 4;dl 0 y;st 5 q_y 0"),
         # prototype life cycle
         mk("same-P", "rejneg,id", "sw 1 2;sw 0 1;st 2 x 4;st 0 x -1;st 0 x 6;st 2 x 5;dl 0 x;st 2 x 8;sw 0 3;st 3 x 9"),
         # the 100-step recursion limit of setattr_delegate / base_trait: chains of 99, 100, 101 deferring levels
@@ -92,6 +96,9 @@ def generate(rng, tier):
             yield D.random_history(rng, shape)
     for shape in D.ODD_SHAPES:
         for _ in range(n_odd):
+            yield D.random_history(rng, shape)
+    for shape in D.SUB_SHAPES:
+        for _ in range(n_chain):
             yield D.random_history(rng, shape)
 
 
